@@ -940,8 +940,33 @@ def slice_closure(ctx, py: PyRepo):
                f'`{ls}` is extended after the statements it names were scanned for symbols: statements added later are emitted unscanned',
                where)
     # (3) declarations precede uses
-    pos = {d: i for i, d, _o, _f, _l, _n in emitted if d in ('ConstantStatement', 'VariableStatement', 'Block')}
-    body_emits = [i for i, d, o, _f, _l, _n in emitted if not any(x.startswith('decl:') for x in o) and d != 'Block']
+    # (positions in program order: a statement nested in an `else` still comes after the statements before the `if`)
+    pre_ = {}
+
+    def number(node):
+        pre_[id(node)] = len(pre_)
+        for ch in ast.iter_child_nodes(node):
+            number(ch)
+    number(fn)
+    pos = {d: pre_[id(n_)] for _i, d, _o, _f, _l, n_ in emitted if d in ('ConstantStatement', 'VariableStatement', 'Block')}
+    body_emits = [pre_[id(n_)] for _i, d, o, _f, _l, n_ in emitted if not any(x.startswith('decl:') for x in o) and d != 'Block']
+    # the pass that emits the statements the proof names runs whatever else holds: under a condition (`if <variables in use>: ..`) a
+    # lemma whose cone has no variable gets a slice without the axioms its proof cites
+    parents_ = {c_: p_ for p_ in ast.walk(fn) for c_ in ast.iter_child_nodes(p_)}
+    for lp_ in {id(l_): l_ for _i, _d, o, _f, l_, _n in emitted if l_ is not None and any(x.startswith(CUT + '[') for x in o)}.values():
+        guards = []
+        cur_ = lp_
+        while cur_ in parents_ and parents_[cur_] is not fn:
+            par_ = parents_[cur_]
+            if isinstance(par_, ast.If):
+                in_body = any(cur_ is x for x in par_.body)
+                guards.append(('' if in_body else 'not ') + ast.unparse(par_.test))
+            elif isinstance(par_, (ast.For, ast.While, ast.Try, ast.With)):
+                guards.append(type(par_).__name__)
+            cur_ = par_
+        ctx.ob('slice-closure', 'named-statements-emitted-unconditionally', not guards,
+               f'the pass over `{CUT}` that emits the statements named by the proof only runs under `{" and ".join(guards)[:120]}`: when that does not '
+               f'hold the slice lacks every axiom and lemma its proof cites', py.where(SLICER, lp_))
     ok = 'ConstantStatement' in pos and 'VariableStatement' in pos and 'Block' in pos and body_emits \
         and max(pos['ConstantStatement'], pos['VariableStatement']) < min(body_emits) and max(body_emits) < pos['Block']
     ctx.ob('slice-closure', 'declarations-first', bool(ok),
